@@ -32,7 +32,7 @@ SIM = "deterministic simulation with fault injection: "
 claim("C02", "protosim", "exploration",
       SIM + "seeded multi-party protocol runs (executable Fetch browser, intermediary injecting tolerated ACRH alterations in flight, debug mode as live state) against the real middleware; oracle = independent permits(Config, intent) predicate",
       "Every run draws an accepted configuration (reached through one of six API routes or a random walk of operator calls), 1..4 browser intents and 0..3 in-flight alterations; each intent is executed four ways (debug off/on x unaltered/altered) as a complete preflight+actual protocol run, and the browser's verdict must equal what the configuration means. Sampling by seed over configurations x intents x alterations: exploration.",
-      "Trusted: the ~150-line browser model (Fetch CORS-preflight fetch 7.x, CORS check, extract header list values, PNA) and the 40-line permits predicate written from the Config documentation; net/http's server is not in the loop (requests are built the way it delivers them); preflight cache not modelled; only browser-serialisable tuple origins.",
+      "Trusted: the ~150-line browser model (Fetch CORS-preflight fetch 7.x, CORS check, extract header list values, PNA) and the 40-line permits predicate written from the Config documentation; net/http's server is not in the loop (requests are built the way it delivers them); the CORS-preflight cache of a browser is modelled in one of the worlds (simulated clock, max-age caps of the three engines); only browser-serialisable tuple origins.",
       "DESIGN §3 C02")
 claim("C06", "histsim", "exploration",
       SIM + "seeded call histories with snapshot/restore faults (Reconfigure(Config()), restart from Config(), double restore, restore through passthrough) at arbitrary positions; differential oracle real-code-before vs real-code-after plus constructor twins",
